@@ -85,6 +85,10 @@ func c12Exhaustive(g *lineGen, r *rng, tier string) {
 	for _, fr := range []string{"line", "split:61"} {
 		allSeqs(c12SplitAlpha, lim(6, 7), func(s string) { g.addStream(fr, s, r) })
 	}
+	// split bytes that are not ASCII: the terminator is that BYTE, never the UTF-8 encoding of the code point
+	// of the same number (0xff vs c3 bf, 0x80 vs c2 80)
+	allSeqs([]string{"\xff", "\xc3", "\xbf", "a"}, lim(6, 7), func(s string) { g.addStream("split:ff", s, r) })
+	allSeqs([]string{"\x80", "\xc2", "a", "\n"}, lim(5, 6), func(s string) { g.addStream("split:80", s, r) })
 	for _, fr := range []string{"strict:-", "lsp"} {
 		allSeqs(c12HdrBytes, lim(4, 5), func(s string) { g.addStream(fr, s, r) })
 	}
